@@ -2084,7 +2084,8 @@ func Extra() map[string]any {
 		"library":                   "real " + repoDir() + "/shell_lib.sh sourced through a copy whose only change is /frameworks/shell/ -> " + repoDir() + "/frameworks/shell/",
 		"context_file":              "rendered by the real pkg/hook/binding_context ConvertBindingContextList(v1)",
 		"exhaustive_scope":          "exhaustive-1: 13 context kinds x every subset of the kind's candidate handlers (+__main__) x exit status {0,1} x decoy handlers {absent,present}; exhaustive-2 (thorough): 13x13 ordered kind pairs under one binding x every subset of the union of candidates x {no failure, failure at index 0, failure at index 1}",
-		"exotic_stream":             "binding names outside the model (blanks, glob characters, quotes ...): never judged; Coq-evaluated counts are in trigger_cases (XMODEL = disagree with the model, XSPEC = fail the predicate P). trigger-F20 stream: typed contexts bound under the reserved name onStartup (corpus witness + ~5% of the random count), judged and excused by the recorded finding F20",
+		"names_streams":             "names-systematic: a catalogue of ~110 user-style names x (quick: one typed kind and one position each, rotating; thorough: 9 typed kinds x position first/middle/last x __main__ defined or not) in an array of three contexts whose other two (Event Added `pods`, Schedule `b1`) have their own handlers defined; the wild string is the binding name, for Group also/only the group name, for Conversion also a version. names-random: 2-5 contexts, each position wild with probability ~1/2 (catalogue or composed from ~45 tokens and blank/tab separators), handlers: whole documented names, the words they fall apart into (low rate), __main__ 75%, failing statuses. Every hook runs in an empty working directory; words the shell of this machine knows beyond C19_Corr.shell_table are never generated (hazard filter). All these cases are compared with the model; cases inside the pending triggers FRAG (a word of a split name is a function of the hook / known to the shell) and GLOB (a word is a glob pattern: failglob) are not judged by the predicate until the lead records the findings - FRAGV / GLOBV count those on which hook.sh violates it",
+		"exotic_stream":             "the former triage-only stream (single wild names) is judged like the names streams now; XMODEL / XSPEC count cases outside the model (a member the harness cannot read back, a NUL or newline in a string). trigger-F20 stream: typed contexts bound under the reserved name onStartup (corpus witness + ~5% of the random count), judged and excused by the recorded finding F20",
 		"config_text":               "the text the generated __config__ writes is an input (absent = the line VERIF-CONFIG-TEXT): a list of chunks (bytes x repetitions), each written by cat of a file / a quoted here-document / printf '%s' / echo, before the commands of its body; the COMPLETE stdout of every run (all modes) is recorded, run-length encoded losslessly and compared byte for byte with the model's (Coq expands both); config-systematic: a catalogue of ~130 texts (whole YAML/JSON configurations with document marker, escaped quotes, %, regex backslashes; leading dashes; % and printf formats; backslash sequences; no/one/several final newlines, blanks, empty; shell-significant characters; CR, non-UTF-8, control bytes, NUL; several writes; 4 KiB / 64 KiB / 128 KiB / 320 KiB) with a succeeding __config__, every eighth also with a failing one; config-random: texts from a grammar (leading x YAML|JSON document with jqFilters in every quoting style x trailing, spliced special tokens, or short strings over the alphabet of special characters), 1-4 writes in random forms, 1 in 5 with a failing __config__ (return status or a command of its body), contexts / other handlers / further arguments at random; tags cfg:*",
 		"exotic_cases":              len(exoticLog),
 		"exotic_differ_atoms_hint":  differ,
@@ -2095,6 +2096,6 @@ func Extra() map[string]any {
 var Driver = core.Driver[Input, Obs]{
 	Spec: core.Spec{Property: "C19", Imports: []string{"C19_Model", "C19_Spec", "C19_Corr"}, Corr: "C19_Corr",
 		Triggers: []string{"F20", "XMODEL", "XSPEC", "FRAG", "GLOB", "FRAGV", "GLOBV"}, ShrinkKey: "ctxs",
-		Rule: "one run of a generated bash hook (real shell_lib.sh + frameworks/shell, scripted handler functions, trace file) per case; streams: corpus, exhaustive-1, exhaustive-2 (thorough), strict-systematic and random-body (handlers with bodies of commands run under strict mode: a failing command / pipeline / unset variable / block in the middle followed by succeeding commands, tested positions, return/exit, no final return; the marks of the commands that started are compared), random (0-6 contexts, safe binding names, shuffled definitions, 8 exit codes, --config and other arguments), malformed (contexts the operator never produces; model only), trigger-F20 (typed binding named onStartup), exotic (triage only), config-systematic and config-random (--config with the TEXT of __config__ as an input: any bytes, written in several pieces and ways; the raw stdout of the run is compared byte for byte and judged by the clause printed-verbatim - the raw stdout is compared in every other stream too); non-trivial = dispatch over >=1 context with >=1 handler defined, or --config with __config__ defined; distinct = distinct input JSON"},
+		Rule: "one run of a generated bash hook (real shell_lib.sh + frameworks/shell, scripted handler functions, trace file) per case; streams: corpus, exhaustive-1, exhaustive-2 (thorough), strict-systematic and random-body (handlers with bodies of commands run under strict mode: a failing command / pipeline / unset variable / block in the middle followed by succeeding commands, tested positions, return/exit, no final return; the marks of the commands that started are compared), random (0-6 contexts, safe binding names, shuffled definitions, 8 exit codes, --config and other arguments), malformed (contexts the operator never produces; model only), trigger-F20 (typed binding named onStartup), names-corpus / names-systematic / names-random and exotic (the CONTENT of binding names, group names and versions in arrays of several contexts: names with blanks, tabs, runs of blanks, leading/trailing blanks, empty, glob characters, quotes, backslashes, $, shell keywords, fragments that are other handlers' names, in every position of the array, beside contexts with identifier-like names that have their own handlers; compared with the word-level model C19_WModel (word splitting + failglob in an empty working directory) and judged by C19_WSpec.PW outside the pending triggers FRAG / GLOB), config-systematic and config-random (--config with the TEXT of __config__ as an input: any bytes, written in several pieces and ways; the raw stdout of the run is compared byte for byte and judged by the clause printed-verbatim - the raw stdout is compared in every other stream too); non-trivial = dispatch over >=1 context with >=1 handler defined, or --config with __config__ defined; distinct = distinct input JSON"},
 	Gen: Gen, Run: Run, Render: Render, PerShard: 150, Workers: 12, CaseTimout: 150 * time.Second, Extra: Extra,
 }
